@@ -417,6 +417,7 @@ A_BOUNDS = {
         'c_mc_1c_other_side': ({'A': 3, 'B': 2}, 2, False),
         'd_m_m': ({'A': 2, 'B': 3}, 2, False),
         'e_reflexive_1c_1c': ({'A': 3}, 3, False),
+        'e0_reflexive_unphrased': ({'A': 3}, 3, False),
         'f_reflexive_1_mc': ({'A': 3}, 3, False),
         'g_assoc_class': ({'A': 2, 'B': 1, 'C': 2}, 2, False),
         'g2_reflexive_assoc_class': ({'A': 2, 'C': 2}, 2, False),
@@ -428,6 +429,7 @@ A_BOUNDS = {
         'c_mc_1c_other_side': ({'A': 3, 'B': 3}, 2, True),
         'd_m_m': ({'A': 3, 'B': 3}, 2, True),
         'e_reflexive_1c_1c': ({'A': 4}, 3, False),
+        'e0_reflexive_unphrased': ({'A': 4}, 3, False),
         'f_reflexive_1_mc': ({'A': 4}, 3, False),
         'g_assoc_class': ({'A': 2, 'B': 2, 'C': 2}, 2, True),
         'g2_reflexive_assoc_class': ({'A': 3, 'C': 2}, 2, True),
@@ -547,6 +549,12 @@ def b_tasks(tier):
                         if n > 2 and si:
                             continue        # three instances: upper-case type names only
                         tasks.append(['B', ta, tb, si, ii, n])
+    if tier == 'quick':
+        # (round 8, C11-16) three instances also in the quick tier for the identifier lists holding two identifiers, over
+        # integer attributes: an instance that repeats one identifier of an earlier instance still counts for the other one
+        for ii, idset in enumerate(B_IDSETS):
+            if len(idset) == 2:
+                tasks.append(['B', 'INTEGER', 'INTEGER', 0, ii, 3])
     return tasks
 
 
